@@ -4,7 +4,7 @@ META = {'bounds': 'one text part, framing concrete (boundary "b", CRLF line ends
 U = ['htp_multipart.c', 'bstr_builder.c', 'htp_list.c', 'htp_table.c', 'bstr.c', 'htp_util.c', 'htp_utf8_decoder.c']
 def ob(cut, nd=2, tier='quick', timeout=900, mem_gb=12):
     return Ob('mp.one_text_part.ND%d.cut%d' % (nd, cut), 'mp/split.c', units=U, models=['@libc_model.c', '@fixed_alloc.c'], remove=['htp_log', 'bstr_alloc', 'bstr_expand'], defines={'ND': nd, 'CUT': cut, 'FA_CAP': 80}, unwind=12,
-              unwind_by=[(r'^harness\\.', 80), (r'^htp_mpartp_parse\\.', 75), (r'^htp_mpartp_parse_header|^htp_mpart_part_parse_c_d|^htp_mpart_decode', 60), (r'^strlen', 40), (r'^bstr_util_cmp|^bstr_begins|^bstr_util_mem_index|^bstr_to_lower|^bstr_builder', 50),
+              unwind_by=[(r'^harness\.', 80), (r'^htp_mpartp_parse\.', 75), (r'^htp_mpartp_parse_header|^htp_mpart_part_parse_c_d|^htp_mpart_decode', 60), (r'^strlen', 40), (r'^bstr_util_cmp|^bstr_begins|^bstr_util_mem_index|^bstr_to_lower|^bstr_builder', 50),
                          (r'^htp_mpart_part_handle_data|^htp_martp_process_aside|^htp_mpartp_handle', 60), (r'^htp_chomp', 4), (r'^memchr', 60), (r'^htp_list|^htp_table', 12), (r'^check', 4)],
               tier=tier, timeout=timeout, mem_gb=mem_gb, statement='one generated text part through the whole real multipart parser: type, name and value exact, whole == split at this cut, flags equal',
               bounds='framing concrete, %d symbolic data bytes, cut %d' % (nd, cut))
